@@ -530,7 +530,7 @@ def fundamental(chk, repo, rule, seed, tier):
         if isinstance(e, ast.Subscript) and isinstance(e.value, ast.Attribute) and e.value.attr == 'shape':
             return 1
         # np.ones(num_shells) / np.zeros(num_shells): a per-shell vector, one element in the collapsed reading
-        if isinstance(e, ast.Call) and ast.unparse(e.func) in ('np.ones', 'np.zeros') and e.args and isinstance(e.args[0], ast.Name) and e.args[0].id == 'num_shells':
+        if isinstance(e, ast.Call) and ast.unparse(e.func) in ('np.ones', 'np.zeros') and e.args and not isinstance(e.args[0], (ast.Tuple, ast.List)) and itp.eval(e.args[0], fr) == 1:
             return X.ONE if e.func.attr == 'ones' else X.ZERO
         return NotImplemented
     it = Interp(repo, hooks={'expr': expr_hook, 'drop_full_slices': True})
@@ -694,7 +694,7 @@ def kelvin_from_exact_solutions(chk, repo, rule, seed, tier, love_refs=True):
     def expr_hook(itp, e, fr):
         if isinstance(e, ast.Subscript) and isinstance(e.value, ast.Attribute) and e.value.attr == 'shape':
             return 1
-        if isinstance(e, ast.Call) and ast.unparse(e.func) in ('np.ones', 'np.zeros') and e.args and isinstance(e.args[0], ast.Name) and e.args[0].id == 'num_shells':
+        if isinstance(e, ast.Call) and ast.unparse(e.func) in ('np.ones', 'np.zeros') and e.args and not isinstance(e.args[0], (ast.Tuple, ast.List)) and itp.eval(e.args[0], fr) == 1:
             return X.ONE if e.func.attr == 'ones' else X.ZERO
         return NotImplemented
     it = Interp(repo, hooks={'expr': expr_hook, 'drop_full_slices': True})
